@@ -34,6 +34,12 @@ class FailingGenerator(PydanticModelCodeGenerator):
 # fault kind -> (file name, raw content or None for "missing", extra argv, format, lookup)
 FAULTS = {
     "missing-file": dict(content=None),
+    "missing-yaml-file": dict(content=None, fmt="yaml"),
+    "missing-ini-file": dict(content=None, fmt="ini"),
+    "directory-as-json-file": dict(content="<dir>"),
+    "directory-as-ini-file": dict(content="<dir>", fmt="ini"),
+    "lookup-key-missing-after-list": dict(content='{"pages": [{"items": [{"a": 1}]}, {"items": []}]}', lookup="pages.itemz"),
+    "key-lookup-on-list-root": dict(content='[{"data": [{"a": 1}]}]', lookup="data"),
     "malformed-json": dict(content='[{"a": 1}, {"a": '),
     "empty-file": dict(content=""),
     "malformed-yaml": dict(content="a: [1, 2\nb: {", fmt="yaml"),
@@ -95,7 +101,9 @@ def write_inputs(d, case):
         p = f"in{j}.{ext}"
         faulty = "content" in spec and j == case["pos"]
         if faulty:
-            if spec["content"] is not None:
+            if spec["content"] == "<dir>":
+                os.makedirs(os.path.join(d, p), exist_ok=True)
+            elif spec["content"] is not None:
                 with open(os.path.join(d, p), "w") as f:
                     f.write(spec["content"])
             argv += ["-m", "Model"] + ([spec["lookup"]] if spec.get("lookup") else []) + [p]
